@@ -264,7 +264,24 @@ def run_case(case):
             nonlocal state, eval_errors
             try:
                 ct = a.condition.evaluate(state)
+                if still_initial:
+                    # a typed variable without initial assignment that still holds its (generic) initial value is *read* here:
+                    # by the condition, and by the right side or the default, whichever is used
+                    try:
+                        reads = {str(x) for x in a.condition.get_free_symbols()}
+                        if ct:
+                            reads |= {str(x) for x in a.get_free_symbols(with_condition=False, with_default=False)}
+                        else:
+                            reads.add(str(a.default))
+                    except Exception:  # noqa
+                        reads = set()
+                    for nm in sorted(reads & still_initial):
+                        val0 = state.get(Symbol(nm))
+                        if val0 is not None and not _member(val0, ftypes[nm]):
+                            read_viol.append((phase, it, i, a, nm, val0, gf, "condition" if nm in {str(x) for x in a.condition.get_free_symbols()} else "right side"))
                 state = a.evaluate(state)
+                if ct:
+                    still_initial.discard(str(a.variable))
             except rngseam.NoController:
                 raise
             except Exception as e:  # noqa
@@ -276,6 +293,8 @@ def run_case(case):
             steps.append((phase, it, i, a, ct, state[a.variable], gf))
 
         skipped = set()
+        still_initial = {v for v in uninit if v in ftypes}
+        read_viol = []
         try:
             for i, a in enumerate(program.initial):
                 step("init", -1, i, a, False)
@@ -314,6 +333,16 @@ def run_case(case):
                             tainted.add(name)
                     continue
             tainted.discard(name)
+        for (phase, it, i, a, nm, val0, gf, where) in read_viol:
+            shape = ("read", bool(gf))
+            shape_counts[shape] = shape_counts.get(shape, 0) + 1
+            if shape_counts[shape] > 2:
+                continue
+            # the value is the literal initial value the case supplies: nothing to confirm
+            violations.append({"var": nm, "value": val0, "type": ftypes[nm], "phase": phase, "iteration": it, "stmt": i, "assignment": str(a),
+                               "via_default": False, "default_is_other_var": False, "source_guard_false": bool(gf), "downstream_of_f13": False,
+                               "no_initial_value": True, "is_generic_initial_value": True, "run": ri, "confirmed": True,
+                               "kind": "read-before-assignment", "read_in": where, "exact_value": str(symvals.get(nm))})
         if run_viol:
             # confirmation by the independent exact evaluator with the same resolutions
             conf = _confirm(exact, program, symvals, iters, ctl.log, skipped)
